@@ -21,6 +21,7 @@ func (t *Tracer) Trace(c context.Context) (result runner.Result) {
 	// Start the runner
 	pgid, err := t.Runner.Start()
 	t.Handler.Debug("tracer started: ", pgid, err)
+	verifEvent("start", "pgid", pgid, "err", verifErr(err))
 	if err != nil {
 		t.Handler.Debug("start tracee failed: ", err)
 		result.Status = runner.StatusRunnerError
@@ -51,6 +52,7 @@ func (t *Tracer) trace(c context.Context, pgid int) (result runner.Result) {
 			result.Status = runner.StatusRunnerError
 			result.Error = fmt.Sprintf("%v", err)
 		}
+		verifEvent("end", "status", int(result.Status), "exit", result.ExitStatus, "error", result.Error)
 		// kill all tracee upon return
 		killAll(pgid)
 		collectZombie(pgid)
@@ -75,6 +77,7 @@ func (t *Tracer) trace(c context.Context, pgid int) (result runner.Result) {
 			// Ensure the process have called setpgid
 			pid, err = unix.Wait4(pgid, &wstatus, unix.WALL, &rusage)
 		}
+		verifWait(pid, err, uint32(wstatus), ph.execved)
 		if err == unix.EINTR {
 			t.Handler.Debug("wait4 EINTR")
 			continue
@@ -178,18 +181,22 @@ func (ph *ptraceHandle) handle(pid int, wstatus unix.WaitStatus) (status runner.
 			return
 		}
 		unix.PtraceCont(pid, int(sig))
+		verifEvent("cont", "pid", pid, "sig", int(sig), "why", "signaled")
 
 	case wstatus.Stopped():
 		// Set option if the process is newly forked
 		if !ph.traced[pid] {
 			ph.Handler.Debug("set ptrace option for", pid)
 			ph.traced[pid] = true
+			verifPoint("tracer.firststop")
 			// Ptrace set option valid if the tracee is stopped
 			if err := setPtraceOption(pid); err != nil {
+				verifEvent("setopt", "pid", pid, "err", verifErr(err))
 				status = runner.StatusRunnerError
 				errStr = err.Error()
 				return
 			}
+			verifEvent("setopt", "pid", pid, "err", "")
 		}
 
 		stopSig := wstatus.StopSignal()
@@ -200,6 +207,7 @@ func (ph *ptraceHandle) handle(pid int, wstatus unix.WaitStatus) (status runner.
 			case unix.PTRACE_EVENT_SECCOMP:
 				if ph.execved {
 					// give the customized handle for syscall
+					verifPoint("tracer.seccomp")
 					err := ph.handleTrap(pid)
 					if err != nil {
 						status = runner.StatusDisallowedSyscall
@@ -208,6 +216,7 @@ func (ph *ptraceHandle) handle(pid int, wstatus unix.WaitStatus) (status runner.
 					}
 				} else {
 					ph.Handler.Debug("ptrace seccomp before execve (should be the execve syscall)")
+					verifEvent("pretrap", "pid", pid)
 				}
 
 			case unix.PTRACE_EVENT_CLONE:
@@ -223,11 +232,13 @@ func (ph *ptraceHandle) handle(pid int, wstatus unix.WaitStatus) (status runner.
 					ph.execved = true
 				}
 				ph.Handler.Debug("ptrace stop exec")
+				verifEvent("exec", "pid", pid)
 
 			default:
 				ph.Handler.Debug("ptrace unexpected trap cause: ", trapCause)
 			}
 			unix.PtraceCont(pid, 0)
+			verifEvent("cont", "pid", pid, "sig", 0, "why", "trap")
 			return
 
 		// check if cpu rlimit hit
@@ -246,6 +257,7 @@ func (ph *ptraceHandle) handle(pid int, wstatus unix.WaitStatus) (status runner.
 		}
 		ph.Handler.Debug("ptrace stopped")
 		unix.PtraceCont(pid, int(stopSig))
+		verifEvent("cont", "pid", pid, "sig", int(stopSig), "why", "stop")
 	}
 	return
 }
@@ -261,9 +273,11 @@ func (ph *ptraceHandle) handleTrap(pid int) error {
 	if ph.Handler != nil {
 		ctx, err := getTrapContext(pid)
 		if err != nil {
+			verifEvent("trap", "pid", pid, "nr", int64(0), "act", -1, "err", verifErr(err))
 			return err
 		}
 		act := ph.Handler.Handle(ctx)
+		verifEvent("trap", "pid", pid, "nr", int64(ctx.SyscallNo()), "act", int(act), "err", "")
 
 		switch act {
 		case TraceBan:
